@@ -44,3 +44,10 @@ Theorem C04_from_squares_reserves : forall cfg sqs pl p,
   (forall c, count_pieces (is_cap_of c) (board p) + reserve p c true = capstone_count cfg) /\
   board p = sqs /\ ply p = pl /\ size p = csize cfg /\ zlen (board p) = size p * size p.
 Proof. exact from_squares_reserves. Qed.
+
+(* ---- about the function regenerated from the source (gen/GameGen.v) ---- *)
+From TV Require Import model.PySem proofs.GameGenEq proofs.GameGenCor.
+From TV Require gen.GameGen.
+(* every move the translated Position.move accepts preserves consistency and raises the ply by one *)
+Theorem C04_source_inv_step : forall cfg p m p', Inv cfg p -> GameGen.move p m = Ok p' -> Inv cfg p' /\ ply p' = ply p + 1.
+Proof. exact gen_inv_step. Qed.
